@@ -78,6 +78,10 @@ def build_am(modes, mix, asyncs_all):
         pass
     am["methods"] = methods
     am["async"] = [[p, n] for p, ns in methods.items() for n in ns] if asyncs_all else []
+    if asyncs_all:
+        # every third coroutine callback of the machine sits behind a plain `def` wrapper that returns the coroutine
+        # (an `async def` under an ordinary decorator): not a coroutine function, still awaited by the async engine
+        am["async_behind_plain_decorator"] = [["machine", n] for k, n in enumerate(methods["machine"]) if k % 3 == 1]
     return am
 
 
